@@ -50,7 +50,7 @@ pub fn reference(cfg: &Cfg, host: Option<&str>, path: &str, ws: bool) -> Option<
     list.iter().position(|r| matches(r, path)).map(|j| format!("d{}{}", if ws { "w" } else { "r" }, j))
 }
 
-pub const HOSTS_REQ: [Option<&str>; 8] = [None, Some("x.test"), Some("y.test"), Some("x.test:80"), Some("other"), Some("x.y"), Some("x.test.test"), Some("x.x.test")];
+pub const HOSTS_REQ: [Option<&str>; 11] = [None, Some("x.test"), Some("y.test"), Some("x.test:80"), Some("other"), Some("x.y"), Some("x.test.test"), Some("x.x.test"), Some("bücher.test"), Some("www.日本.test"), Some("ü")];
 // targets include repeats of the literal tails of the patterns (`*b` vs `/b/b`, `/*/b` vs `/x/b/b`): a matcher
 // that does not retry its last wildcard fails exactly there
 pub const TARGETS: [(&str, &str); 12] = [("/", "/"), ("/a", "/a"), ("/ab", "/ab"), ("/a/b", "/a/b"), ("/b", "/b"), ("/a?q", "/a"), ("/a/b?x=/b", "/a/b"), ("/x/b?/a", "/x/b"), ("/b/b", "/b/b"), ("/x/b/b", "/x/b/b"), ("/ab/ab", "/ab/ab"), ("/a/a", "/a/a")];
@@ -184,6 +184,13 @@ pub fn family(quick: bool) -> Vec<(Cfg, bool)> {
                     }
                 }
             }
+        }
+    }
+    // host patterns with multi-byte characters (lengths in bytes and in characters differ), asked with the
+    // multi-byte Host values of HOSTS_MB
+    for h in ["bücher.test", "*.日本.test", "*ü*"] {
+        for r in &seqs(&pats_small, 1) {
+            cfgs.push((Cfg { hosts: vec![(h.to_string(), r.clone(), r.clone()), ("*.test".into(), vec!["/*".into()], vec![])], default_routes: vec!["/a".into()], default_ws: vec!["/a".into()] }, true));
         }
     }
     if !quick {
